@@ -87,7 +87,9 @@ def _trunc_worker(args):
 
 
 THEOREMS = (
-    "readChunks_chunkEnd", "C17_unclosed",
+    "unclosedFile_layout", "readChunks_chunkEnd", "C17_unclosed",
+    "take_encAll", "walk_prefix", "prefix_lateC", "trunc_body", "readHead_riff_short", "readHead_bw64_short",
+    "closedFile_written", "C17_truncation",
 )
 
 
@@ -210,8 +212,22 @@ class C17(Spec):
 SPEC = C17()
 
 REGISTRY = dict(
-    text="",
-    note="",
+    text="FULL: Lean theorems about the byte-level models of Bw64Writer/Bw64Reader (same models as C09): "
+    "Earverif.Bw64.C17_unclosed — the buffer of a writer that was never closed, after any history of write/setter calls, "
+    "any constructor or pending chunks, fewer than 2^32-1 data bytes, is rejected (chunk ends after the end of the file: "
+    "the data header still holds the 0xFFFFFFFF placeholder); Earverif.Bw64.C17_truncation — for every finalised file in "
+    "C09's quantifier and every cut position k < length, readFile (file.take k) is an error or succeeds with the same "
+    "format, the same frame count, exactly the same sample bytes and each of chna/axml/bext absent or identical "
+    "(TruncOK). Proof by the layout lemma (closedFile_written), the prefix decomposition take_encAll and the chunk-walk "
+    "lemma walk_prefix (EOF inside a header, error inside a body or pad, data chunk lacking only its pad byte accepted "
+    "with a warning). The models are tied to the code on every run: unclosed buffer bytes and reader verdict after "
+    "construction and after every call of generated histories, and every truncation offset of generated finalised files "
+    "<= 600 bytes (quick 40 files, thorough 2000 files + 600 more on the real code alone), error kinds and parsed fields "
+    "compared; the two predicates of the property run on the real code for every case.",
+    note="Trusted: as C09 (Lean kernel, hand transliteration + correspondence, BytesIO semantics as modelled, PCM codec is "
+    "C16's). Unfinished files with exactly 2^32-1 data bytes are outside the quantifier (placeholder indistinguishable "
+    "from a real size). A cut that leaves the data chunk complete except for its pad byte is accepted with the "
+    "'missing padding byte' warning, by design of the reader.",
     technique="Lean 4 proof about byte-level writer/reader models + differential correspondence with the real "
     "Bw64Writer/Bw64Reader over all crash points and truncation offsets + search on the real code",
     design_ref="DESIGN.md section 4, C17",
